@@ -389,6 +389,65 @@ def tlc(module, cfg=None, workers=None, env=None, timeout=1800, simulate=None, d
     return r
 
 
+def tlc_simulate(module, cfg, seconds=20, depth=40, workers=4, env=None, seed=None, max_records=20000, specdir=None):
+    """Run TLC in simulation mode for a wall-clock budget and collect the
+    records the spec prints ("@@"+json lines).  TLC is killed when the budget
+    or max_records is reached (simulation never terminates by itself)."""
+    specdir = specdir or SPEC
+    meta = subdir("tlc") + "/s%d_%d" % (int(time.time() * 1000) % 100000000, len(os.listdir(subdir("tlc"))))
+    cmd = ["java", "-XX:+UseParallelGC", "-cp",
+           "/opt/veriftools/tla/tla2tools.jar:/opt/veriftools/tla/CommunityModules-deps.jar",
+           "tlc2.TLC", "-workers", str(workers), "-metadir", meta, "-noGenerateSpecTE",
+           "-simulate", "-depth", str(depth), "-config", cfg if cfg.endswith(".cfg") else cfg + ".cfg"]
+    if seed is not None:
+        cmd += ["-seed", str(seed)]
+    cmd.append(module if module.endswith(".tla") else module + ".tla")
+    e = dict(os.environ)
+    if env:
+        e.update({k: str(v) for k, v in env.items()})
+    r = TLCResult()
+    r.cmd = " ".join(cmd[cmd.index("tlc2.TLC"):])
+    t0 = time.time()
+    p = subprocess.Popen(cmd, cwd=specdir, env=e, stdout=subprocess.PIPE, stderr=subprocess.STDOUT, text=True)
+    import threading
+    timer = threading.Timer(seconds, p.kill)
+    timer.start()
+    tail = []
+    try:
+        for line in p.stdout:
+            if line.startswith('"@@'):
+                try:
+                    r.printed.append(json.loads(json.loads(line)[2:]))
+                except ValueError:
+                    pass
+                if len(r.printed) >= max_records:
+                    p.kill()
+                    break
+            else:
+                tail.append(line)
+                if len(tail) > 200:
+                    tail.pop(0)
+    finally:
+        timer.cancel()
+        try:
+            p.kill()
+        except OSError:
+            pass
+        p.wait()
+    r.out = "".join(tail)
+    r.wall = time.time() - t0
+    shutil.rmtree(meta, ignore_errors=True)
+    m = _RE_INV.search(r.out)
+    if m:
+        r.violation = m.group(1)
+    elif "Error:" in r.out and "violated" in r.out:
+        r.violation = "violated"
+    elif "Error:" in r.out:
+        r.violation = "error"
+    r.ok = r.violation is None
+    return r
+
+
 def tlc_or_die(*a, **k):
     """tlc() that turns any TLC failure into a machinery error (exit 2)."""
     r = tlc(*a, **k)
